@@ -283,3 +283,7 @@ COMPONENTS = [
               shrink=shrink, timeout=60),
 ]
 COMPONENTS[0].split = split
+
+# GymABS cache model (Ctl/Adapters.v, ids 1505/1506): reset must leave the cache as on a new object
+from .gymabs import COMPONENT_GYMABS  # noqa: E402
+COMPONENTS.append(COMPONENT_GYMABS)
